@@ -50,7 +50,6 @@ def liftQ (p : Par) (rows : List (List Nat)) : RPoly :=
 
 def hEnc (toks : List String) : Option String := do
   let p ← getPar toks
-  let mode ← kv? toks "mode"
   let s ← (kv? toks "s") >>= parseIVec?
   let g ← (kv? toks "g") >>= parseMat?
   let a0 ← (kv? toks "a0") >>= parsePolys?
@@ -61,7 +60,7 @@ def hEnc (toks : List String) : Option String := do
   let sP := RPoly.ofInts qs s
   let smp0 := (a0.zip e0).map fun (a, e) => (mkPoly qs a, RPoly.ofInts qs e)
   let smp1 := (a1.zip e1).map fun (a, e) => (mkPoly qs a, RPoly.ofInts qs e)
-  let ct := encryptR p (mode == "rep") sP (liftQ p g) smp0 smp1
+  let ct := encryptR p sP (liftQ p g) smp0 smp1
   pure (showVec p.shape ++ "|" ++ showRGSW ct)
 
 def getCt (toks : List String) (key : String) (qs : List Nat) : Option (RPoly × RPoly) := do
@@ -75,9 +74,8 @@ def hExtProd (toks : List String) : Option String := do
   let inplace ← (kv? toks "inplace") >>= parseNat?
   let ct ← getCt toks "c" p.qsQ
   let rg ← getRGSW toks "r" p.qsQP
-  let old ← getCt toks "old" p.qsQ
-  let out := if inplace == 1 then extProdR p ct rg else extProdOutOfPlaceR p ct rg old
-  pure (showCt out)
+  let _ := inplace
+  pure (showCt (extProdR p ct rg))
 
 def hAdd (toks : List String) : Option String := do
   let p ← getPar toks
